@@ -116,6 +116,7 @@ static void check_block(const char *meta, size_t n, const std::vector<Entry> &es
     vp::outcome("n=" + std::to_string(es.size()) + ":" + sh);
 }
 
+static bool g_count_only = false;   // the largest thorough family: counted as states, not hashed into the non-trivial set
 static void generated_case(const std::vector<Entry> &es, const std::string &cid)
 {
     vp::current_case() = cid;
@@ -128,7 +129,7 @@ static void generated_case(const std::vector<Entry> &es, const std::string &cid)
     // the library must not have written into the block
     if(memcmp(buf, b.data(), b.size())) vp::violation("block-modified|meta()|" + sh, cid, show_entries(es));
     free(buf);
-    if(sh.compare(0, 5, "plain") != 0 || es.size() > 1) vp::nontrivial(vp::fnv(b));
+    if(!g_count_only && (sh.compare(0, 5, "plain") != 0 || es.size() > 1)) vp::nontrivial(vp::fnv(b));
 }
 
 struct Family { const char *name; std::vector<std::string> keys; std::vector<Entry> vals; };   // vals: key unused
@@ -263,6 +264,7 @@ int main(int argc, char **argv)
         run_family(tiny, 8);
         run_family(small, 5);
         run_family(medium, 4);
+        g_count_only = true;
         run_family(full, 3);
     }
     return vp::finish();
